@@ -16,6 +16,7 @@ from .sink import (
   ClientMessageSink,
   ClientMessageSinkStack
 )
+from .timer_queue import GLOBAL_TIMER_QUEUE
 from .varz import (
   Rate,
   Source,
@@ -171,12 +172,53 @@ class MessageDispatcher(ClientMessageSink):
     if self._open_ar.ready():
       return self._DispatchMethod(method, args, kwargs, timeout, start_time)
     else:
-      # _DispatchMethod returns an AsyncResult, so we end up with an
-      # AsyncResult<AsyncResult<TRet>>, Unwrap() removes one layer, yielding
-      # an AsyncResult<TRet>
-      return self._open_ar.ContinueWith(
-          lambda ar: self._DispatchMethod(method, args, kwargs, timeout, start_time)
-      ).Unwrap()
+      return self._DispatchWhenOpen(method, args, kwargs, timeout, start_time)
+
+  def _DispatchWhenOpen(self, method, args, kwargs, timeout, start_time):
+    """Dispatches a call once the pending Open() completes.  The deadline of
+    the call keeps running while it waits: if it passes first the caller gets a
+    TimeoutError and the call is never dispatched.
+
+    Returns:
+      An AsyncResult representing the status of the method call.
+    """
+    ret = AsyncResult()
+    waiting = [True]
+
+    def on_deadline():
+      if waiting[0]:
+        waiting[0] = False
+        ret.set_exception(TimeoutError())
+
+    if timeout:
+      cancel_timeout = GLOBAL_TIMER_QUEUE.Schedule(
+          start_time + timeout, on_deadline)
+    else:
+      cancel_timeout = None
+
+    def on_open(_):
+      if cancel_timeout:
+        cancel_timeout()
+      if not waiting[0]:
+        # Timed out while opening, ret has been completed already.
+        return None
+      waiting[0] = False
+      # From here on the timeout sink enforces the deadline.
+      return self._DispatchMethod(method, args, kwargs, timeout, start_time)
+
+    def on_complete(ar):
+      if ret.ready():
+        return
+      if ar.exception:
+        ret.set_exception(ar.exception)
+      else:
+        ret.set(ar.value)
+
+    # on_open returns an AsyncResult, so we end up with an
+    # AsyncResult<AsyncResult<TRet>>, Unwrap() removes one layer, yielding
+    # an AsyncResult<TRet>
+    self._open_ar.ContinueWith(on_open).Unwrap().rawlink(on_complete)
+    return ret
 
   @staticmethod
   def StaticDispatchMessage(sink, source, start_time, deadline, disp_msg):
